@@ -77,7 +77,7 @@ PROPS = {
              "interval sampled around the call, what arrives per call == one message (cut at its own length field) of exactly the byte count SendSet reported; nothing else at the peer at the end. "
              "One session in 16 is a UDP session with the 1 s template refresh running concurrently with 2.3 s of application sends (half of them "
              "starting just below 2^32): the rule is checked in capture order on every datagram, whoever sent it. "
-             "Non-trivial = a template between data messages, or the wrap crossed; distinct by hash of the (kind, record count) list.",
+             "Non-trivial = a template between data messages, or the wrap crossed; distinct by hash of the (kind, record count) list. ALSO: One session in 16 has two goroutines sending on one exporting process against a peer that does not read for 2.2 s: the second goroutine's message must carry the second of its sending (not before the peer resumed), and sequence numbers hold in stream order.",
              COMMON_ASSUME + ["failed sends are outside C08's statement and are not generated here"],
              "runtime monitor: running-count model over headers parsed from bytes captured at a raw peer"),
     "C09": P(False, (8, 16), 16, (900, 3600), 300, 100, "exploration",
@@ -103,7 +103,7 @@ PROPS = {
              "delivered template must match the wire's ids/enterprise numbers. Non-trivial = version 10 and >= 20 bytes (reaches set "
              "decoding); distinct by (mode, state, input bytes). Each batch ends with a phase that sends 3000 (thorough 60000) such inputs through the "
              "REAL UDP and TCP handlers (sockets, goroutines): a panic there kills the child and is attributed by the front-end, and a valid "
-             "probe sent afterwards from the same socket / a fresh connection must still be delivered.",
+             "probe sent afterwards from the same socket / a fresh connection must still be delivered. ALSO: A third of the lenient-mode states add sibling templates (other domain / id, before and after the template in force) that carry its unknown elements at other widths.",
              COMMON_ASSUME + ["an error return is always acceptable for C03", "not judged for exactness (still for totality): known elements announced with a non-registry length, "
                               "messages whose header/set length disagree with the bytes presented, set ids < 256, bytes after the first template record"],
              "runtime monitor: panic/CPU/heap budget monitors + reference-decoder oracle over hostile inputs x template states x modes"),
@@ -116,7 +116,7 @@ PROPS = {
              "model's keys and element lists (a zero-field or reduced-size template may be held or not). Exhaustive: all 15^4 (quick) / 15^5 (thorough) words over 3 keys; plus random histories of "
              "length 6..40 over 2 domains x 4 ids in all 3 modes, with 6 layouts including a pair of the same shape that differs only in the "
              "enterprise number, and (lenient modes) the same unknown element announced with a different length in every layout; delivered "
-             "field names must be those of the template in force. Non-trivial = a data set after >= 2 template-affecting ops on related keys.",
+             "field names must be those of the template in force. Non-trivial = a data set after >= 2 template-affecting ops on related keys. ALSO: The bad-template symbol has a fourth, gray variant (a variable-length registry element announced with a fixed length): its own key is then not judged, every other key sharing the element is. Acceptance is three-valued (must / must not / free: non-zero leftover bytes, gray and opaque keys).",
              COMMON_ASSUME + ["a template set cut inside its 4-byte (id, count) header is not generated (gray zone)"],
              "runtime monitor: reference template-table model + table snapshot comparison after every message; bounded-exhaustive + random histories"),
     "C17": P(True, (8, 16), 16, (1200, 5400), 20000, 10000, "exploration",
@@ -127,7 +127,7 @@ PROPS = {
              "1- and 3-byte prefixes); drop must omit exactly the unknown fields; in keep/drop every known field must equal the encoded "
              "value AND the twin's value, with its registry name. Enumerated: 1..4 known fields x every multiset of <= 3 insertion slots "
              "(repeated with fresh values); random: 1..11 known fields, 1..3 unknown (IANA absent ids, unknown enterprises, unknown ids in "
-             "known enterprises). Every evaluation is non-trivial (>= 1 unknown and >= 1 known field); distinct by (mode, fields, values).",
+             "known enterprises). Every evaluation is non-trivial (>= 1 unknown and >= 1 known field); distinct by (mode, fields, values). ALSO: In strict mode the rejected template is also presented under the id of the twin, which holds a valid template then: data fitting the older definition must be rejected as well.",
              COMMON_ASSUME + ["zero-length unknown elements belong to C03's degenerate templates"],
              "runtime monitor: differential decoding (with vs without unknown fields) x 3 modes against refipfix-encoded wire bytes"),
     "C10": P(True, (16, 16), 16, (1200, 7200), 10000, 2000, "exploration",
@@ -152,7 +152,7 @@ PROPS = {
              "each matching refipfix's reading; after that frame the collector must close the connection (client sees EOF/RST) and deliver "
              "nothing more; a long-lived healthy connection sending a message every 0.5 ms for the whole batch must lose and reorder nothing. "
              "Exhaustive: every single and double cut point of short streams (seed-independent); random: 0..20 cuts, 1-byte-at-a-time, "
-             "all-in-one. Non-trivial = >= 1 cut strictly inside a message; distinct by (stream, cut set).",
+             "all-in-one. Non-trivial = >= 1 cut strictly inside a message; distinct by (stream, cut set). ALSO: A seventh kind of invalid message is an undecodable data record for the (domain, template) the long-lived healthy connection works with: that connection must not be closed and must lose nothing.",
              COMMON_ASSUME + ["the kernel may coalesce chunks despite TCP_NODELAY and pauses: the segmentation written is recorded, the one the collector's reads saw is not observable without a hook",
                               "'connection closed' is decided with a 15 s wall-clock bound (normal: < 1 ms)"],
              "runtime monitor: own framer + reference decoder over real TCP connections with controlled segmentation; race detector"),
@@ -167,7 +167,7 @@ PROPS = {
              "Every 16th case the exporter is replaced by a new exporting process of the same observation domain on the same long-lived "
              "collector (its template ids restart at 256, so earlier ids are redefined), and every delivered message object is retained and "
              "re-read after the next deliveries: its content must not change once delivered. "
-             "Non-trivial = delivered and (>= 2 fields or >= 2 records or a boundary length); distinct by (config, elements, values).",
+             "Non-trivial = delivered and (>= 2 fields or >= 2 records or a boundary length); distinct by (config, elements, values). ALSO: Every 24th plain-UDP case is followed by a burst: 34..44 (template, data) pairs sent back to back while the collector's consumer stands still, which must then come out in the order sent, each exact (a second burst must be complete if the first lost a datagram).",
 
              COMMON_ASSUME + [ONE_MSG] + ["pion/dtls drops records above its 8 KiB receive buffer while Write succeeds: larger DTLS messages are sent, compared if they arrive, only counted if not",
                               "a 65535-byte value cannot travel end to end (header + set header + prefix leave 65512): that boundary is C15's and C09's"],
@@ -181,7 +181,7 @@ PROPS = {
              "per-client order (over tcp/tls also no gap), every acknowledged message of a gracefully closed tcp/tls connection delivered "
              "(runs without early Stop), GetNumConnToCollector() back to 0, Stop returns (30 s bound, normal ms), afterwards no goroutine with "
              "a pkg/collector frame and this process owns no socket on the collector's port (/proc/self/fd against /proc/self/net/*); race detector reports with a go-ipfix frame are "
-             "violations. Non-trivial = deliveries of >= 2 clients interleaved; distinct by hash of the delivery interleaving.",
+             "violations. Non-trivial = deliveries of >= 2 clients interleaved; distinct by hash of the delivery interleaving. ALSO: Clients stuck mid-message, and over tls peers stuck in the middle of the handshake, keep their connections open until Stop has returned; a third of the larger datagram clients send a burst of 40+ datagrams past the pacing while the consumer stands still (order must hold).",
              COMMON_ASSUME + ["the goroutine that calls Stop() first waits for GetAddress() != nil (the only readiness signal the API offers)",
                               "udp runs where fewer than half of the datagrams are delivered are inconclusive, not held", "DTLS is excluded by the property"],
              "runtime monitor: offline exactly-once/order checker over a recorded event log + goroutine/socket leak probes; race detector; GOMAXPROCS sweep"),
@@ -197,7 +197,7 @@ PROPS = {
              "fail. close: CloseConnToCollector from 1..8 goroutines twice each while the application goroutine sends: returns (30 s bound), "
              "SendSet after it fails, peer stream == acknowledged sends (+ at most one failed send or a prefix of it), well-formed datagrams. "
              "At the end no goroutine with a pkg/exporter frame may remain. Non-trivial = application data fell between two datagrams of one "
-             "refresh round / close noticed / a Close raced acknowledged sends.",
+             "refresh round / close noticed / a Close raced acknowledged sends. ALSO: A quarter of the refresh sessions keep announcing new templates every 0.3-0.7 s: the templates of the start must still be refreshed.",
              COMMON_ASSUME + [ONE_MSG] + ["rounds are recognised structurally (a template id repeating starts a new round), not by wall-clock gaps",
                               "loss of a datagram on loopback makes a refresh session inconclusive"],
              "runtime monitor: per-datagram parser + refresh-round model + prefix-of-acknowledged-sends model at a raw peer; goroutine leak probe; race detector"),
@@ -212,7 +212,7 @@ PROPS = {
              "delta sums since reset mod 2^64, throughput = 8*growth/dt with the first-record convention of the suite; common end, totals, "
              "deltas, throughput and tcpState following the node with the latest end time; flow identity), every other flow unchanged "
              "(deep comparison of all fields), GetNumFlows == live 5-tuples, reset changes delta/throughput fields only. Non-trivial = >= 2 "
-             "records on one flow; distinct by hash of the history.",
+             "records on one flow; distinct by hash of the history. ALSO: In half of the flows the two reporting nodes see the flow start in different seconds.",
              COMMON_ASSUME + ["totals stay below 2^60 (octet growth >= 2^61 between two records would overflow the library's 64-bit product; not generated)",
                               "flowEndReason stickiness and httpVals merging are not in the statement and are not asserted",
                               "contract-violating inputs (out-of-order records of one node) are outside the statement and are not generated"],
@@ -257,7 +257,7 @@ PROPS = {
              "flow twice in one scan, exports <= deadlines passed, both slots of a single-stream flow equal. pool: Start with 1..16 workers "
              "fed 50..450 inter-node flows (one source and one destination record each, shuffled) through the channel, Stop, then key set, "
              "correlation, delta sums, merged names and end time compared with the sequential result. Non-trivial = >= 2 operations "
-             "overlapping in time on one key (lin) / exports happened (stress) / run completed (pool); distinct by the (call, return) order.",
+             "overlapping in time on one key (lin) / exports happened (stress) / run completed (pool); distinct by the (call, return) order. ALSO: Half of the lin histories have a goroutine holding the process lock (read-only walk with a slow callback) and one polling GetNumFlows. The sequential specification is nondeterministic and about thread-safety only (sums exact, only existing and ready flows exported, never twice at one virtual instant, existence consistent, removal only by a scan).",
              COMMON_ASSUME + ["each (flow, node) stream has one producer: the aggregation contract (per-node end times increase) must hold in every linearization",
                               "porcupine Unknown (60 s timeout) is inconclusive"],
              "porcupine linearizability check of recorded histories against a sequential model + conservation checker at quiescence; race detector; GOMAXPROCS sweep"),
@@ -271,7 +271,7 @@ PROPS = {
              "from flow.proto's numbering, the record's values and the message's export time / sequence number / observation domain / "
              "exporter address (proto3: zero values absent, nothing duplicated, nothing extra); the consumer-side DecodeAndPrintMsg "
              "(delimited mode, the schema cmd/consumer uses) must accept it and recover the same values. Non-trivial = a multi-record "
-             "message or a template between data messages; distinct by stream.",
+             "message or a template between data messages; distinct by stream. ALSO: One data message in 25 carries 60..460 records.",
              COMMON_ASSUME + ["string values are valid UTF-8 (RFC 7012 string; proto3 refuses anything else)"],
              "runtime monitor: recording AsyncProducer + independent protowire field parser + consumer-side decoder; race detector"),
     "C20": P(True, (8, 16), 16, (1500, 7200), 30, 6, "exploration",
@@ -301,7 +301,7 @@ PROPS = {
              "validity failures and DNS ServerName mismatches judged; wrong/no SAN with an empty ServerName recorded but not judged. "
              "Negative cells must not establish a session / deliver; positive cells must establish one and deliver. The quick tier runs "
              "every cell on IPv4; thorough adds IPv6, 3 rounds of fresh certificates and the DTLS-exporter-vs-plaintext-peer cell. Every "
-             "cell is non-trivial; distinct by cell.",
+             "cell is non-trivial; distinct by cell. ALSO: Two more server-certificate kinds lie three minutes outside their validity period (issued when the cell runs).",
              COMMON_ASSUME + ["'not delivered' is observed for 600 ms after the send attempt (normal delivery: < 5 ms)",
                               "pion/dtls skips name verification when ServerName is empty or an IP literal: those DTLS cells are recorded, not judged",
                               "crypto/tls and pion/dtls are trusted as documented"],
